@@ -92,7 +92,11 @@ def ref(m, acc):
     if m == "15": return pz06(acc, (2, 3, 4, 5), 6, 9) == A[9]
     if m == "16":
         r = wsum(r2l(acc, 1, 9), (2, 3, 4, 5, 6, 7)) % 11
-        return A[8] == A[9] if r == 1 else (0 if r == 0 else 11 - r) == A[9]
+        if r == 1:
+            # "as 06, but with remainder 1 the account is right if digits 9 and 10 are identical": whether the
+            # method-06 digit 0 remains acceptable as well is not stated unambiguously -> undecided
+            return True if A[8] == A[9] else (None if A[9] == 0 else False)
+        return (0 if r == 0 else 11 - r) == A[9]
     if m == "17":
         r = (sum(qs(x * y) for x, y in zip(A[1:7], (1, 2, 1, 2, 1, 2))) - 1) % 11
         return (0 if r == 0 else 10 - r) == A[7]
@@ -106,7 +110,9 @@ def ref(m, acc):
     if m == "22": return (10 - wsum(r2l(acc, 1, 9), (3, 1), lambda p: p % 10) % 10) % 10 == A[9]
     if m == "23":
         r = wsum(r2l(acc, 1, 6), (2, 3, 4, 5, 6, 7)) % 11
-        return A[5] == A[6] if r == 1 else (0 if r == 0 else 11 - r) == A[6]
+        if r == 1:
+            return True if A[5] == A[6] else (None if A[6] == 0 else False)   # same ambiguity as method 16
+        return (0 if r == 0 else 11 - r) == A[6]
     if m == "24":
         x = acc[:9]
         if x[0] in "3456": x = "0" + x[1:]
